@@ -52,6 +52,9 @@ type Result struct {
 	// partition a space); when 0 the case counts once by FP.
 	Evals      int64 `json:"ev,omitempty"`
 	DistinctNT int64 `json:"dnt,omitempty"`
+	// Echo is the case itself, set for cases the parent did not plan
+	// (re-queued parts of a resumable case).
+	Echo *Case `json:"echo,omitempty"`
 
 	racePhase bool
 }
@@ -99,6 +102,12 @@ type Prop struct {
 	MemLimitKB int
 	// Workers overrides the number of parallel children (0 = default).
 	Workers int
+	// Resumable: a case iterates over inputs and prints "@input <k>" to
+	// stderr before each; after an out-of-memory death the parent re-runs
+	// the case without input k (P["from"], P["to"] bound the inputs).
+	Resumable bool
+	// ChildEnv is added to the environment of children.
+	ChildEnv []string
 }
 
 var Props = map[string]*Prop{}
